@@ -173,7 +173,7 @@ ADDENDA2 = {
  "C03": "Later: the no -0 coordinate restriction is removed; FullExactness is a theorem for all unit-ish finite points with Go == (C03_AllZeros.lean).",
  "C17": "Later: vertex, interior and prefilter error bounds PROVED on UnitPt / EdgeOK, two-sided under the wedge margin (C17_Error.lean); the proof found that MaxPointError is not a bound for all Normalize outputs (known finding D57). Edge-pair minimum = least of the four endpoint-to-arc distances and UpdateMaxDistance through the antipode proved in exact geometry, float glue partial (C17_Pairs.lean, C17_PairsFloat.lean). Edge pairs two-sided for every exit, Project under ProjMargin, EdgePairClosestPoints both branches (C17_Pairs2.lean).",
  "C08": "Later: for a point target the search theorems hold with NO abstract WorldOK at an explicit slack 2^-44 (C08_World.lean), from C12 distance_lower_bound, the C17 edge contract and I1; WorldOK / CellLB as first stated are false of the real code and were replaced by the true SlackWorld. RegionsNested proved; x - e <= x is false for ChordAngle.Sub in general, the restricted law is proved for MaxError 0, +Inf and >= 2^-400 (C08_World2.lean). Edge targets likewise (C08_EdgeTarget.lean).",
- "C04": "Later: edge clipping regenerated and proved equal to the build model (translator_c04). Constructor / rotation / reversal theorems for all valid loops and parity theorems for tilings (C04_Tiling.lean).",
+ "C04": "Later: edge clipping regenerated and proved equal to the build model (translator_c04). Constructor / rotation / reversal theorems for all valid loops and parity theorems for tilings (C04_Tiling.lean). Convex-cell lemma and disjointness of neighbouring cells proved; 'exactly once' unconditional for the six faces and all level-1 cells (C04_Tiling2*.lean).",
  "C05": "Later: Cell / CellUnion region predicates tied to the region values of the end-to-end theorems, float region predicates pinned (translator_c07). Defect D56 (Rect.IntersectsCell, edge longitude span) found by the thorough tier and repaired; generator family lens. Cap regions: IntersectsCell / ContainsCell modelled bit-exactly, exact algorithm an iff, float soundness with slack 2^-44, coverings end to end (C05_Cap.lean); the proof found defect D59 (edge rejection near a hemisphere), repaired.",
  "C06": "Later: I1 proved without MergeComplete, I3 and 'queries on the built index = brute force' proved under three named statements of exact geometry (C06_BuildI3.lean); "
         "index construction and padded cells regenerated (translator_c04); defect D52 (shape-id sentinel after Remove) found and repaired; the check also runs the containment paths. TrackSound's float clause holds for cells with -0 coordinates too (C06_AllZeros.lean). I1 of the built index is PROVED for real uv geometry from the float error analysis of the clipping (build_I1_float, C06_ClipFloat.lean). Face clipping: FaceEdgesOK proved except the re-projection branch; spherical I1 for points and same-face edges (C06_FaceClip.lean); finding D60 (PointCross for nearly antipodal arguments). D60 repaired (exact fallback in PointCross); pointCross_exact_normed (C06_PointCross.lean).",
